@@ -59,6 +59,22 @@ class Base:
 		return Base(3, 'made')
 
 
+class Acc:
+	_base: int
+	total: int
+	__hidden: int
+	shown: int
+
+	def __init__(self, n: int) -> None:
+		self._base = n + 1
+		self.total = self._base * 2
+		self.__hidden = self.total + 1
+		self.shown = self.__hidden * 3
+
+	def all(self) -> int:
+		return self._base + self.total * 10 + self.__hidden * 100 + self.shown * 1000
+
+
 class Sub(Base):
 	ratio: float
 
@@ -146,6 +162,9 @@ FUNCS: list[tuple[str, list[tuple[str, tuple]], tuple, list[str], list[list]]] =
 	('range_loose_bounds', [('n', INT)], INT, ['t = 0', 'm = absi(n)', 'for i in range(m & 3):', '\tt = t * 3 + i + 1', 'for j in range(m | 1, (m ^ 5) + 3):', '\tt = clamp(t * 2 + j)', 'for k in range(4 if m > 2 else 2):', '\tt = clamp(t + k)', 'return t'], INTS),
 	('range_loose_comp', [('n', INT)], ('list', INT), ['m = absi(n)', 'xs = [q * 2 for q in range(m & 3)]', 'xs.append(len(xs))', 'return xs'], INTS),
 	('quoted_strings', [('n', INT)], STR, ["a = 'a\"b'", "b = '''abc'''", 'c = \"\"\"x\"y\"\"\"', "d = 'it\\'s'", "e = '''l1\\nl2'''", 'return a + b + c + d + e + str(n)'], INTS),
+	('field_init_order', [('n', INT)], INT, ['a = Acc(absi(n) % 5)', 'return clamp(a.all() + a.total + a.shown)'], INTS),
+	('comma_in_strings', [('n', INT)], INT, ["d = {k: 'a,b' for k in range(absi(n) % 3 + 1)}", "e = {'x,y': 1, 'z': 2}", 't = 0', 'for k, v in d.items():', '\tt = t + k + len(v)', "return t * 10 + len(e) + e['x,y']"], INTS),
+	('raise_with_comma', [('n', INT)], INT, ['t = 0', 'try:', '\tif n > 1:', "\t\traise RuntimeError('too big, stop (now)')", '\tt = 1', 'except RuntimeError as e:', '\tt = 2', 'return t'], INTS),
 	# -- exceptions
 	('try_raise', [('n', INT)], INT, ['t = 0', 'try:', '\tif n > 1:', "\t\traise RuntimeError('x')", '\tt = 1', 'except RuntimeError as e:', '\tt = 2', 'return t'], INTS),
 	('casts', [('n', INT), ('f', FLOAT)], INT, ['a = int(f * 2.0)', 'b = float(n) + 0.5', 'c = int(b)', 'return a * 100 + c'], IF),
